@@ -15,6 +15,14 @@ claim("C13",
       "correspondence up to 4 segments); harness codec; python reference resolver. Group-level linking is exercised by the oracle only.",
       "Lean 4 proof over model + exhaustive model/implementation correspondence")
 
+claim("C12",
+      "Lean 4 theorem decode_genLitStr: for every string, ECMAScript (strict and sloppy; spec written from ECMA-262) decodes the literal "
+      "the model of gen_lit_str emits back to exactly that string; model tied to escape::gen_lit_str by an exhaustive per-scalar "
+      "differential run (all 1,112,064 scalars x contexts) through a cfg hook; V8 decodes every real literal as oracle.",
+      "Trusted: Lean kernel; axioms ⊆ {propext, Classical.choice, Quot.sound}; GE/Spec/JsString.lean (reading of ECMA-262); model tie is differential "
+      "(per-scalar exhaustive + random strings; the loop is assumed stateless); V8. Which constants pass through gen_lit_str is covered under C02/C04.",
+      "Lean 4 proof (decoder round-trip by induction) + exhaustive model/implementation correspondence")
+
 ALL = ["C%02d" % i for i in range(1, 21)]
 
 def main():
